@@ -2,23 +2,32 @@
 # through enumerated/sampled schedules and checks the property's clauses as run-time monitors.
 import asyncio, os, itertools, random, sys
 
-def run_schedule(recursive, pipe_tokens, scripts):
+def run_schedule(recursive, pipe_tokens, scripts, ext=None):
     """scripts: per task a list of rounds (delay_before, hold).  Returns None or a violation text."""
     from bob.builder import JobServerSemaphore
     r, w = os.pipe()
     os.set_blocking(r, False)
     os.write(w, b'+' * pipe_tokens) if pipe_tokens else None
     capacity = pipe_tokens + (1 if recursive else 0)
-    state = {'running': 0, 'viol': None}
+    state = {'running': 0, 'viol': None, 'ext': 0}
+    if ext:
+        # a foreign job-server participant (sub-make) takes tokens before Bob's tasks start and gives them back later
+        for _ in range(ext[0]):
+            try: os.read(r, 1); state['ext'] += 1
+            except BlockingIOError: break
     async def main():
         sem = JobServerSemaphore((r, w), recursive)
+        async def foreign():
+            for d in ext[1][:state['ext']]:
+                for _ in range(d): await asyncio.sleep(0)
+                os.write(w, b'+'); state['ext'] -= 1
         async def task(script):
             for (d, h) in script:
                 for _ in range(d): await asyncio.sleep(0)
                 await sem.acquire()
                 state['running'] += 1
-                if state['running'] > capacity and state['viol'] is None:
-                    state['viol'] = '%d jobs run concurrently on %d slot(s)' % (state['running'], capacity)
+                if state['running'] > capacity - state['ext'] and state['viol'] is None:
+                    state['viol'] = '%d jobs run concurrently on %d slot(s) (%d token(s) held by a foreign participant)' % (state['running'], capacity - state['ext'], state['ext'])
                 for _ in range(h): await asyncio.sleep(0)
                 state['running'] -= 1
                 try:
@@ -26,7 +35,7 @@ def run_schedule(recursive, pipe_tokens, scripts):
                 except Exception as ex:
                     if state['viol'] is None: state['viol'] = 'release() raised %r' % (ex,)
                     return
-        ts = [asyncio.ensure_future(task(s)) for s in scripts]
+        ts = [asyncio.ensure_future(task(s)) for s in scripts] + ([asyncio.ensure_future(foreign())] if ext else [])
         done, pending = await asyncio.wait(ts, timeout=2)
         if pending and state['viol'] is None:
             state['viol'] = 'deadlock/lost wake-up: %d task(s) never finished' % len(pending)
@@ -48,28 +57,40 @@ def run_schedule(recursive, pipe_tokens, scripts):
 
 def cases(seed):
     rounds = [(d, h) for d in range(3) for h in range(3)]
+    # a foreign participant holds tokens while several Bob tasks wait, and returns them one at a time
+    for recursive in (False, True):
+        for toks in (1, 2):
+            for ntasks in (2, 3):
+                for hold in (0, 1, 3):
+                    for delays in ([1, 1, 1], [2, 9, 9], [1, 5, 9]):
+                        yield recursive, toks, [[(0, hold)] for _ in range(ntasks)], (toks, delays)
     for recursive in (True, False):
         for toks in ((0, 1) if recursive else (1, 2)):
             for a in itertools.product(rounds, repeat=2):
                 for b in rounds:
                     yield recursive, toks, [list(a), [b]]
+    rnd = random.Random(seed)
+    for _ in range(3000):
+        recursive = rnd.random() < .5
+        toks = rnd.randint(0 if recursive else 1, 3)
+        ext = None
+        if rnd.random() < .5: ext = (rnd.randint(1, toks) if toks else 0, [rnd.randint(1, 6) for _ in range(3)])
+        yield recursive, toks, [[rnd.choice(rounds) for _ in range(rnd.randint(1, 3))] for _ in range(rnd.randint(2, 4))], ext
+    for recursive in (True, False):
+        for toks in ((0, 1) if recursive else (1, 2)):
             for a in itertools.product(rounds, repeat=2):
                 for b in itertools.product(rounds, repeat=2):
                     yield recursive, toks, [list(a), list(b)]
-    rnd = random.Random(seed)
-    for _ in range(1500):
-        recursive = rnd.random() < .5
-        toks = rnd.randint(0 if recursive else 1, 2)
-        yield recursive, toks, [[rnd.choice(rounds) for _ in range(rnd.randint(1, 3))] for _ in range(rnd.randint(2, 4))]
 
 def replay(rep):
     seed = int(os.environ.get('VERIF_SEED', '0') or 0)
     tried = 0
-    for recursive, toks, scripts in cases(seed):
+    for case in cases(seed):
+        recursive, toks, scripts = case[:3]; ext = case[3] if len(case) > 3 else None
         tried += 1
-        v = run_schedule(recursive, toks, scripts)
+        v = run_schedule(recursive, toks, scripts, ext)
         if v is not None:
             return {'reproduced': True, 'tried': tried,
-                    'witness': {'recursive': recursive, 'tokens_in_pipe': toks, 'task_scripts(delay,hold)': scripts, 'observed': v}}
-        if tried > 12000: break
+                    'witness': {'recursive': recursive, 'tokens_in_pipe': toks, 'task_scripts(delay,hold)': scripts, 'foreign(take,return_delays)': ext, 'observed': v}}
+        if tried > 15000: break
     return {'reproduced': False, 'tried': tried, 'detail': 'no schedule up to the search bound violates a monitored clause'}
